@@ -21,11 +21,11 @@ type propDef struct {
 
 // Ctx carries the loads for one run.
 type Ctx struct {
-	Repo  string
-	Tier  string
-	L     *Loaded            // linux/amd64
-	alt   map[string]*Loaded // other configurations, lazily
-	Verif string
+	Repo   string
+	Tier   string
+	L      *Loaded            // linux/amd64
+	alt    map[string]*Loaded // other configurations, lazily
+	Verif  string
 	report *Report
 }
 
@@ -210,29 +210,29 @@ func finish(c *Ctx, p *propDef, r *Report, evid, knownPath string, seed int, sta
 	ev := evidence{
 		PropertyID: p.id, Tier: c.Tier, Seed: seed, Level: "other",
 		Coverage: map[string]any{
-			"explanation":          p.explanation,
-			"not_decided":          p.notDecided,
-			"obligations":          judged,
-			"discharged":           nOK,
-			"evaluations":          judged,
-			"distinct_nontrivial":  len(distinct),
-			"rule":                 "an obligation = one (rule, program construct) pair re-derived from /repo's current source on this run; distinct = distinct construct keys (function + field/callee/role, never a line); non-trivial = tied to a code site (vacuity floors excluded); reported-only (info) entries are not counted",
-			"samples":              samples,
-			"rules":                r.Rules,
-			"per_rule":             perRule,
-			"violated":             nBad,
-			"not_established":      nUnest,
-			"known_findings_hit":   nKnown,
-			"info_reported":        nInfo,
-			"functions_analysed":   fns,
-			"n_functions_analysed": len(fns),
-			"packages_loaded":      len(c.L.Pkgs),
-			"build_configurations": cfgs,
-			"exemptions":           r.Exemptions,
-			"notes":                r.Notes,
+			"explanation":           p.explanation,
+			"not_decided":           p.notDecided,
+			"obligations":           judged,
+			"discharged":            nOK,
+			"evaluations":           judged,
+			"distinct_nontrivial":   len(distinct),
+			"rule":                  "an obligation = one (rule, program construct) pair re-derived from /repo's current source on this run; distinct = distinct construct keys (function + field/callee/role, never a line); non-trivial = tied to a code site (vacuity floors excluded); reported-only (info) entries are not counted",
+			"samples":               samples,
+			"rules":                 r.Rules,
+			"per_rule":              perRule,
+			"violated":              nBad,
+			"not_established":       nUnest,
+			"known_findings_hit":    nKnown,
+			"info_reported":         nInfo,
+			"functions_analysed":    fns,
+			"n_functions_analysed":  len(fns),
+			"packages_loaded":       len(c.L.Pkgs),
+			"build_configurations":  cfgs,
+			"exemptions":            r.Exemptions,
+			"notes":                 r.Notes,
 			"findings_file_entries": fixed,
-			"checker_cmd":          strings.Join(os.Args, " "),
-			"exhaustive":           false,
+			"checker_cmd":           strings.Join(os.Args, " "),
+			"exhaustive":            false,
 		},
 		Assumptions: append([]string{
 			"go/types, go/ssa (x/tools v0.29.0) and `go list` model the program the compiler builds for the listed configurations",
